@@ -7,5 +7,12 @@ CHECKS = {
         "text": "Every (mnemonic x syntactic form x boundary value x radix) row, every branch distance -140..140 in six placements and (thorough) every ordered pair of 1125 statement forms with 4 separators is assembled by the real library and compared byte-for-byte with a hand-written 151-opcode ISA table; illegal cases must yield a diagnostic. The finite spaces are enumerated completely, operand values by boundary classes plus seeded random values/expressions.",
         "note": "Trusts harness/oracle/isa6502.py. Operands outside 0..65535 are observed, not judged. Quick tier covers the pair space by representative mnemonics squared plus a 150k seeded sample; thorough enumerates it completely.",
     },
+    "C03": {
+        "engine": "probe",
+        "category": "exploration",
+        "technique": "runtime monitoring: random expression trees assembled by the real library, judged by an unbounded-integer reference evaluator; failing trees are shrunk to a minimal subtree",
+        "text": "Seeded random expression trees (depth <= 5, all 16 binary operators, !, -, !-, </> modifiers, defined(), three radixes with leading zeros, true/false, constants, backward/forward/dotted labels, `*`, strings with interpolation) are rendered with parentheses exactly where the documentation fixes no precedence, stored with .dword/.word/.byte/.text and compared with Python integer arithmetic restricted to the stated domain. Precedence/associativity are thereby exercised exactly as far as specified; coverage of (parent op, child op, side) pairs is reported.",
+        "note": "Trusts harness/oracle/exprval.py. Assumes / and % truncate toward zero. PETSCII/screen codes judged on the unambiguous subset only. `-<name` is always parenthesised (ambiguous with the scope identifier `-`).",
+    },
 }
 NOT_APPLICABLE = {}
